@@ -42,7 +42,8 @@ RULE = ("keypair: a random history and an adversarial variant (adjacent messages
         "transcripts that mimic another conversation's replies / contain the separator), random sequential interleaving on one "
         "instance vs isolated replays; params: 1-4 managers over 5 parameter names, schedules sequential / nested / randomly "
         "interleaved; conc: 2-4 concurrent single-turn requests with per-request temperature, start delay, pause and LLM latency "
-        "(some LLM calls fail). non-trivial = at least two conversations/managers/requests and (for serve/e2e) at least one "
+        "(some LLM calls fail); thorough additionally enumerates every interleaving of 3 managers x (enter, call, exit) (1680) and of "
+        "the turns of two conversations for six adversarial conversation shapes. non-trivial = at least two conversations/managers/requests and (for serve/e2e) at least one "
         "multi-message request, (keypair) the two histories differ; distinct = distinct case JSON.")
 TRUSTED_BASE = [
     "correspondence harness harness/props/C15.py + Lean driver Drive/C15.lean (JSON codecs; the turn function travels as a table observed from the stub runtime)",
@@ -554,6 +555,49 @@ def g_conc_case(rng):
     return {"kind": "conc", "reqs": reqs, "mode": mode}
 
 
+def _interleavings(progs):
+    """all interleavings of the given sequences (each keeps its own order)"""
+    if not any(progs):
+        yield []
+        return
+    for i, pr in enumerate(progs):
+        if pr:
+            rest = progs[:i] + [pr[1:]] + progs[i + 1:]
+            for tail in _interleavings(rest):
+                yield [pr[0]] + tail
+
+
+def exhaustive_params(n):
+    """every interleaving of n managers x (enter, call, exit) on one shared attribute and one shared model_kwargs key"""
+    out = []
+    for sched in _interleavings([[[m, "enter"], [m, "call"], [m, "exit"]] for m in range(n)]):
+        out.append({"kind": "params", "attrs": {"0": 7}, "kw": {"1": 3}, "managers": [{"0": 10 + m, "1": 20 + m} for m in range(n)], "sched": sched, "mode": "exhaustive"})
+    return out
+
+
+def exhaustive_serve():
+    """six adversarial shapes of a second conversation x every interleaving of the turns of the two conversations"""
+    u = lambda t: {"role": "user", "content": t}  # noqa
+    ref = {"reply": [0, 0]}
+    first = [{"new": [u("a")]}, {"new": [u("x")]}]
+    shapes = [
+        [{"full": [{"role": "user", "content": ["a", ":", ref]}, u("x")]}],
+        [{"full": [u("a"), {"role": "user", "content": [ref]}, u("x")]}],
+        [{"full": [u("a"), {"role": "system", "content": "zz"}, {"role": "assistant", "content": [ref]}, u("x")]}],
+        [{"full": [u("a"), {"role": "assistant", "content": [ref]}, u("x")]}],
+        [{"new": [u("a")]}, {"new": [u("x")]}],
+        [{"new": [u("b")]}, {"new": [u("a")]}],
+    ]
+    out = []
+    for sh in shapes:
+        for order in _interleavings([[0] * len(first), [1] * len(sh)]):
+            out.append({"kind": "serve", "convs": [copy.deepcopy(first), copy.deepcopy(sh)], "order": order, "exh": True})
+    return out
+
+
+EXHAUSTIVE = {"quick": False, "thorough": True}
+
+
 def gen_cases(rng, tier):
     n_key, n_ev, n_serve, n_e2e, n_par, n_conc = (6000, 3000, 200, 50, 4000, 50) if tier == "quick" else (150000, 60000, 1500, 400, 100000, 400)
     cases = []
@@ -571,6 +615,9 @@ def gen_cases(rng, tier):
         cases.append({"kind": "e2e", "cfg": rng.choice(["general", "general", "dialog"]), "convs": convs, "order": g_order(rng, convs)})
     for _ in range(n_conc):
         cases.append(g_conc_case(rng))
+    cases += exhaustive_params(2)
+    if tier == "thorough":
+        cases += exhaustive_params(3) + exhaustive_serve()
     rng.shuffle(cases)  # spread the expensive end-to-end cases evenly over the worker chunks
     return cases
 
